@@ -341,9 +341,63 @@ def attr(ctx, fb, ops, T):
                     checked += 1
                     if RT[v] != t:
                         bad = (c.loc(), v, t)
+        # ... and no conversion site in run / run_in_place escapes the attribute: each is dominated by *some* test of it
+        # (a type-deciding arm, or the None / default arm of an optional attribute); a site under no test produces its type
+        # whatever the attribute says, while output_types() still declares the attribute's type
+        unguarded = []
+        n_sites = 0
+        for f in fns_of_op(fb, o):
+            if 'Operator>::run' not in f.path:
+                continue
+            for (c, t) in conv_sites(fb, f):
+                n_sites += 1
+                tested = False
+                for (gf, place, head, vs) in variant_guards(fb, f, c.bb):
+                    if strict_attr_place(fb, gf, place, fields, o):
+                        tested = True
+                if not tested:
+                    # or-patterns (`Some(T) | None`) leave no single dominating edge: the site is still tested if every path
+                    # to it goes through a switch on the attribute, one of which has a target that cannot reach the site
+                    sws = []
+                    for i, b in enumerate(f.bbs):
+                        if b.get('c') or i not in f.live() or b['t'][0] != 'sw':
+                            continue
+                        r = f.resolve_copy(b['t'][1])
+                        pl = None
+                        if r[0] == 'rv' and r[1][0] == 'disc':
+                            pl = r[1][1]
+                        elif r[0] == 'place':
+                            pl = r[1]
+                        if pl is not None and strict_attr_place(fb, f, pl, fields, o):
+                            sws.append(i)
+                    if sws and c.bb not in f.reach_from(0, avoid=set(sws)):
+                        for i in sws:
+                            t_ = f.bbs[i]['t']
+                            targets = [tb for v, tb in t_[2]] + [t_[3]]
+                            if any(c.bb in f.reach_from(tb) or tb == c.bb for tb in targets) and any(c.bb not in f.reach_from(tb) and tb != c.bb for tb in targets):
+                                tested = True
+                if not tested:
+                    unguarded.append((c.loc(), t))
+        ctx.inst(R, 'all-sites-tested:%s' % o['name'], not unguarded, 'all %d result conversion sites in run / run_in_place are under a test of self.%s' % (n_sites, '/'.join(sorted(fields))) if not unguarded else
+                 'a %s result is produced at %s under no test of self.%s, although output_types() declares the attribute\'s type: when the attribute names another type the value is mislabelled (and a following Cast to the declared type is eliminated)' % (unguarded[0][1], unguarded[0][0], '/'.join(sorted(fields))),
+                 unguarded[0][0] if unguarded else o['otf'].loc())
         ctx.inst(R, 'arms:%s' % o['name'], bad is None, ('declared type is self.%s; %d conversion site(s) under a test of it produce the tested type' % ('/'.join(sorted(fields)), checked)) if bad is None else
                  'declares Fixed(self.%s) but under `%s == %s` a %s tensor is produced' % ('/'.join(sorted(fields)), '/'.join(sorted(fields)), bad[1], bad[2]), bad[0] if bad else o['otf'].loc())
     ctx.floor(R, 'operators whose declared type is an attribute', n, 4)
+
+
+def strict_attr_place(fb, f, place, fields, o):
+    """like is_attr_place, but a projection into a tuple built in this function (`match (a, self.attr) {..}`) is resolved
+    to the tuple operand it selects, so a test of the *other* component does not count as a test of the attribute"""
+    if len(place) >= 2 and isinstance(place[1], list) and place[1][0] == 'f':
+        ds = f.defs().get(place[0], [])
+        if len(ds) == 1 and ds[0][2] == 'rv' and ds[0][3][0] == 'agg' and ds[0][3][1] == 'tuple':
+            ops_ = ds[0][3][4]
+            idx = int(place[1][1])
+            if idx < len(ops_):
+                og = f.origins(ops_[idx])
+                return any(x[0] == 'param' and x[1] == 0 and len(x) > 2 and x[2] and str(x[2][0]) in fields for x in og)
+    return is_attr_place(fb, f, place, fields, o)
 
 
 def is_attr_place(fb, f, place, fields, o, depth=2):
